@@ -79,6 +79,8 @@ def residual(ex, lhs, rhs, relations=(), leaf_values=None):
         s = cv.syms.get(zsym.decl().name())
         if s is None:
             continue
+        if isinstance(val, z3.ExprRef):
+            val = cv.conv(val)
         num = sympy.rem(sympy.Poly(num, s), sympy.Poly(s ** deg - val, s)).as_expr()
         num = sympy.expand(num)
     return num, cv
